@@ -1267,11 +1267,14 @@ class IndexHierarchy(IndexBase):
         if pos is not None:
             if pos == 0:
                 return self._levels.index.values
-            return np.unique(
+            post = np.unique(
                     concat_resolved(
                     list(self._levels.index_array_at_depth(pos))
                     ))
-        return np.unique(array2d_to_array1d(self.values_at_depth(sel)))
+        else:
+            post = np.unique(array2d_to_array1d(self.values_at_depth(sel)))
+        post.flags.writeable = False
+        return post
 
     @doc_inject()
     def equals(self,
@@ -1486,10 +1489,13 @@ class IndexHierarchy(IndexBase):
         flat = self.flat().values
         mask = sel == length
         if not mask.any():
-            return flat[sel] #type: ignore [no-any-return]
+            post = flat[sel]
+            if post.__class__ is np.ndarray:
+                post.flags.writeable = False
+            return post #type: ignore [no-any-return]
 
         post = np.empty(len(sel), dtype=object)
-        sel[mask] = 0 # set out of range values to zero
+        sel = np.where(mask, 0, sel) # set out of range values to zero (sel is immutable)
         post[:] = flat[sel]
         post[mask] = fill_value
         post.flags.writeable = False
